@@ -174,6 +174,10 @@ func (u *unpacker) align(n uint) bool {
 		if n > u.maxAlignment {
 			n = u.maxAlignment
 		}
+		if (n-1)&n != 0 { // (n-1)&n == 0 iff n is a power of 2 (or 0)
+			u.err = errBadAlignment
+			return false
+		}
 		if r := uint(u.j) % n; r != 0 {
 			if !u.skip(n - r) {
 				return false
